@@ -82,6 +82,14 @@ class Ctx:
             ok = not ok
         self.obs.append(Ob("bool", label, ok=ok, detail=detail, sig=sig))
 
+    def unsat(self, label, formula, decode, sig=None):
+        """A formula over solver variables (e.g. a symbolic string) that must be unsatisfiable;
+        `decode(model)` turns a model into concrete values for the replay run."""
+        o = Ob("formula", label, sig=sig)
+        o.impl = formula
+        o.ref = decode
+        self.obs.append(o)
+
     def oob(self, label, why=""):
         self.obs.append(Ob("oob", label, detail=why))
 
@@ -133,7 +141,25 @@ def load_props():
         importlib.import_module(f"{props.__name__}.{m.name}")
 
 
+class RawDomain:
+    """No symbolic weights: the case talks to z3 directly (string theories) through ctx.unsat()."""
+
+    name = "Raw"
+    R = None
+
+    def __init__(self, symbolic, values=None):
+        self.symbolic = symbolic
+        self.values = dict(values or {})
+        self.vars = {}
+        self.fixed = {}
+
+    def term(self, w):
+        return w
+
+
 def make_domain(domain, symbolic, values=None):
+    if domain == "Raw":
+        return RawDomain(symbolic, values)
     if domain == "SW":
         return S.SymSW() if symbolic else S.ConcSW(values)
     if domain == "SNum":
@@ -209,7 +235,10 @@ def tidy_values(vals):
 
 
 def run_concrete(fn, domain, params, values, choices=()):
-    D = make_domain(domain, False, {int(k): Fraction(v) for k, v in values.items()})
+    if domain == "Raw":
+        D = make_domain(domain, False, values)
+    else:
+        D = make_domain(domain, False, {int(k): Fraction(v) for k, v in values.items()})
     ctx = Ctx(D, params)
     old = E.ENG
     E.set_engine(ConcreteEngine([c for c in choices]))
@@ -385,6 +414,31 @@ def run_case(prop, name, params, budget=None):
                     res["samples"].append(dict(label=o.label, impl=_short(o.impl), ref=_short(o.ref), verdict="unsat"))
                 elif len(res["samples"]) < 2 and verdict == "discharged" and res["nontrivial"] and not z3.is_rational_value(o.ref):
                     res["samples"].append(dict(label=o.label, impl=_short(o.impl), ref=_short(o.ref), verdict="unsat (normal forms coincide)"))
+            elif o.kind == "formula":
+                res["nontrivial"] += 1
+                s_ = z3.Solver()
+                s_.set("timeout", budget.get("formula_ms", 120000))
+                s_.add(o.impl)
+                t = time.time()
+                r = s_.check()
+                tz += time.time() - t
+                nq += 1
+                if len(res["samples"]) < 3:
+                    res["samples"].append(dict(label=o.label, verdict=str(r), seconds=round(time.time() - t, 2)))
+                if r == z3.unsat:
+                    verdict = "discharged"
+                elif r == z3.unknown:
+                    verdict = "unknown"
+                else:
+                    cand = o.ref(s_.model())
+                    cobs = run_concrete(fn, domain, params, cand, [])
+                    bad = [(co, why) for co, why in concrete_failures(cobs) if co.label == o.label]
+                    if bad:
+                        res["violations"].append(dict(label=o.label, sig=bad[0][0].sig or o.sig, kind="formula", reproduced=True, why=bad[0][1], values=cand, choices=[]))
+                    else:
+                        res["violations"].append(dict(label=o.label, sig=o.sig, kind="formula", reproduced=False, values=cand, choices=[]))
+                        res["notes"].append(f"solver model for {o.label} did not reproduce: {cand}")
+                    continue
             elif o.kind == "bool":
                 res["bool_checks"] += 1
                 if o.ok:
